@@ -13,7 +13,7 @@ pub const START_DOCS: &[&str] = &[
     "<r><a id=\"1\">x<b/>y</a><c k=\"v\"><!--m--><d/></c><?p q?>t</r>",
     "<r id=\"r\"><a id=\"1\" k=\"x\">t</a><b id=\"2\" k=\"y\"><c k=\"z\"/></b></r>",
     "<!DOCTYPE r [<!ENTITY e \"ee\"><!ATTLIST a d CDATA \"dv\">]><r>t1<a n=\"1\">&e;<![CDATA[cd]]></a><b><c><d>deep</d></c></b></r>",
-    "<r xmlns=\"urn:d\" xmlns:p=\"urn:1\"><p:a p:k=\"1\">\u{e9}\u{1F600}</p:a><b>one</b>two<s xmlns:p=\"urn:2\" xmlns=\"\"><p:c/><d>three</d></s></r>",
+    "<r xmlns=\"urn:d\" xmlns:p=\"urn:1\"><p:a p:k=\"1\" k=\"2\">\u{e9}\u{1F600}</p:a><b>one</b>two<s xmlns:p=\"urn:2\" xmlns=\"\"><p:c/><d>three</d></s></r>",
     "<?x y?><r><!--c1--><a>a-b-c</a><b>]]</b><c>1</c></r><!--end-->",
     "<r><!--a-b-c--><![CDATA[]]x>]]><t>]]x></t><u q=\"x'\">-</u><!---x--></r>",
 ];
@@ -22,7 +22,7 @@ pub const START_DOCS: &[&str] = &[
 pub const NAMES: &[&str] = &["e", "a", "b", "n", "k", "id", "p:q", "x1", "a x=\"1\"", "1a", "", "a b", "<", "\u{e9}", "xml", "a:b:c", "-a"];
 pub const SAFE_NAMES: &[&str] = &["e", "a", "b", "n", "k", "id", "x1", "\u{e9}"];
 pub const DATA: &[&str] = &[
-    "", "x", "abc", "a-b-c", "-", "--", "a-", "]]", "]]>", ">", "<", "&", "&amp;", "\"", "'", "\"'", "?>", "?", " ", "\n", "\u{e9}", "\u{1F600}", "e\u{301}", "a\u{1F600}b\u{e9}c", "<b/>", "&#65;", "&e;", "x y",
+    "", "x", "abc", "a-b-c", "-", "--", "a-", "]", "]]", "]]>", ">", "<", "&", "&amp;", "\"", "'", "\"'", "?>", "?", " ", "\n", "\u{e9}", "\u{1F600}", "e\u{301}", "a\u{1F600}b\u{e9}c", "<b/>", "&#65;", "&e;", "x y",
 ];
 pub const SAFE_DATA: &[&str] = &["", "x", "abc", "a b", "\u{e9}", "\u{1F600}", "e\u{301}", "a\u{1F600}b\u{e9}c", "12", "z"];
 
@@ -63,7 +63,16 @@ pub fn gen_history(g: &mut Genes, cfg: &HistCfg) -> Json {
             let d = g.raw();
             let rp = g.raw();
             let newest = json!([65535, "recent"]);
-            match g.weighted(&[3, 6, 2, 1]) {
+            match g.weighted(&[3, 6, 2, 1, 2]) {
+                4 => {
+                    // a burst of two or three text nodes appended to one parent (sequences that only arise by adjacency)
+                    let tk = ["element", "attr", "detached-element"][g.weighted(&[5, 2, 2])];
+                    let target = json!([rp, tk]);
+                    for _ in 0..(2 + g.pick(2)) {
+                        ops.push(json!({"op": "create_text", "d": d, "s": pick_str(g, data)}));
+                        ops.push(json!({"op": "append", "p": target.clone(), "c": [65535, "recent"]}));
+                    }
+                }
                 0 => {
                     // a further text piece for an attribute value
                     ops.push(json!({"op": "create_text", "d": d, "s": pick_str(g, data)}));
